@@ -193,6 +193,22 @@ PROPS = {
         "level_text": "Exploration by structured mutation fuzzing in-process; tens of thousands of hostile inputs per quick run. Sampling, not proof; not coverage-guided.",
         "level_note": "Trusted base: the manager entry points are what the HTTP handlers call.",
     },
+    "C18": {
+        "level": "exploration",
+        "cases": {"quick": 3200, "thorough": 64000},
+        "rule": "cases = generated (back-end memory/disk, 2-5 request threads with 3-13 (thorough 5-29) requests each, perturbation seed) tuples run on one krill runtime with a parent CA, its child, a sibling CA and an extra publisher: ROA additions and removals, ASPA and BGPsec definitions on any of the three CAs, "
+        "key-roll starts, forced sync / refresh / re-publication of all CAs, publications and withdrawals of the extra publisher, and read-outs of every CA, status and repository; in parallel a scheduler stand-in thread runs the task loop of scheduler::run (hook H-task). "
+        "The yield points at the storage locks and in the command path sleep/yield pseudo-randomly from the seed. Requests of different threads commute (each thread owns its origin AS, ASPA customer, router key and files), so every serial order has the same answers and end state; "
+        "distinct by hash of the case JSON; non-trivial iff at least two threads sent state-changing requests to the same CA and background tasks ran during the concurrent phase",
+        "floors": {"__nontrivial__": 0.70, "same_ca_from_2plus_threads": 0.80, "tasks_ran_concurrently": 0.85, "roa_added": 0.85, "keyroll_started": 0.30, "publisher_files": 0.50, "disk": 0.20},
+        "assumptions": ["requests enter through the manager calls behind the HTTP routes on plain threads (the daemon's worker pool calls the same functions)", "the OS schedules the threads; interleavings are perturbed at the hook points, not enumerated",
+                        "a request or task that does not return within 120 s of wall-clock time counts as a hang; it is reported only if it shows again when the shrunk case is re-run",
+                        "key-roll starts may be refused (a roll is already in progress): either answer is serial"],
+        "technique": "property-based concurrency testing with commuting request sets: generated multi-threaded request schedules against the real runtime plus scheduler stand-in, with the sequential reference model and the relying-party walk as oracle after quiescence (everything asked for is present once, nothing else, tree valid, RRDP/rsync/publisher views agree), "
+        "per-request answers compared with the serial answer, watchdog for completion",
+        "level_text": "Exploration by generated concurrent schedules with random perturbation. Sampling of schedules, not proof; a deadlock that needs a rare interleaving can be missed.",
+        "level_note": "Trusted base: OS scheduling, the hook points, the reference model shared with C01.",
+    },
     "C19": {
         "level": "exploration",
         "cases": {"quick": 1200, "thorough": 24000},
